@@ -31,7 +31,7 @@ def check(prop):
 
 out = {}
 sh(f"git -C {wt} checkout -- src")
-for n in range(1, 17):
+for n in range(1, 21):
     patch = f"{wt}/patch{n}.diff"
     if not os.path.exists(patch):
         continue
